@@ -49,6 +49,7 @@ type BN struct {
 
 	mu    sync.Mutex
 	Calls []string
+	vals  map[eth2p0.ValidatorIndex]eth2p0.BLSPubKey
 }
 
 // New returns a fake node whose fork epochs are spread over the whole epoch range, so that
@@ -157,3 +158,20 @@ func (b *BN) Name() string    { return "fakebn" }
 func (b *BN) Address() string { return "fakebn" }
 func (b *BN) IsActive() bool  { return true }
 func (b *BN) IsSynced() bool  { return true }
+
+// Vals is the scripted active validator set (index -> group public key).
+func (b *BN) SetValidators(v map[eth2p0.ValidatorIndex]eth2p0.BLSPubKey) {
+	b.mu.Lock()
+	b.vals = v
+	b.mu.Unlock()
+}
+
+func (b *BN) ActiveValidators(context.Context) (eth2wrap.ActiveValidators, error) {
+	b.mu.Lock()
+	defer b.mu.Unlock()
+	out := eth2wrap.ActiveValidators{}
+	for k, v := range b.vals {
+		out[k] = v
+	}
+	return out, nil
+}
